@@ -613,4 +613,71 @@ def rule_k(ctx: Ctx, rule: str = 'C02.k') -> None:
                 'taken-slot case that applies or accumulates the patterns of this step.')
 
 
-RULES = [rule_a, rule_b, rule_c, rule_d, rule_e, rule_f, rule_g, rule_h, rule_i, rule_j, rule_k]
+BOUND_FACETS = {
+    # class -> outcomes of comparing value with the bound on which the value must be REJECTED
+    'XsdMinInclusiveFacet': {'lt', 'inc'}, 'XsdMinExclusiveFacet': {'lt', 'eq', 'inc'},
+    'XsdMaxInclusiveFacet': {'gt', 'inc'}, 'XsdMaxExclusiveFacet': {'gt', 'eq', 'inc'},
+}
+_ORDER = {'lt': {ast.Lt: True, ast.LtE: True, ast.Gt: False, ast.GtE: False, ast.Eq: False, ast.NotEq: True},
+          'eq': {ast.Lt: False, ast.LtE: True, ast.Gt: False, ast.GtE: True, ast.Eq: True, ast.NotEq: False},
+          'gt': {ast.Lt: False, ast.LtE: False, ast.Gt: True, ast.GtE: True, ast.Eq: False, ast.NotEq: True},
+          # incomparable (NaN, partially ordered durations): every order relation is false
+          'inc': {ast.Lt: False, ast.LtE: False, ast.Gt: False, ast.GtE: False, ast.Eq: False, ast.NotEq: True}}
+_MIRROR = {ast.Lt: ast.Gt, ast.Gt: ast.Lt, ast.LtE: ast.GtE, ast.GtE: ast.LtE, ast.Eq: ast.Eq, ast.NotEq: ast.NotEq}
+
+
+def _eval_order(e: ast.AST, outcome: str):
+    """truth of a test over `value` and `self.value` when the comparison of the two has the given outcome; None if not of that form."""
+    if isinstance(e, ast.UnaryOp) and isinstance(e.op, ast.Not):
+        r = _eval_order(e.operand, outcome)
+        return None if r is None else not r
+    if isinstance(e, ast.BoolOp):
+        vs = [_eval_order(v, outcome) for v in e.values]
+        if any(v is None for v in vs):
+            return None
+        return all(vs) if isinstance(e.op, ast.And) else any(vs)
+    if isinstance(e, ast.Compare) and len(e.ops) == 1:
+        l, r, op = text(e.left), text(e.comparators[0]), type(e.ops[0])
+        if (l, r) == ('value', 'self.value'):
+            return _ORDER[outcome].get(op)
+        if (l, r) == ('self.value', 'value'):
+            return _ORDER[outcome].get(_MIRROR.get(op))
+    return None
+
+
+def rule_l(ctx: Ctx) -> None:
+    """Bound facets: a value is accepted only when the required order relation with the bound HOLDS.  Tested the other way round
+    (`if value < bound: reject`) a value that is not comparable with the bound - NaN, a duration incomparable with the bound - passes
+    every bound facet.  The rejecting test of each facet is evaluated on the four outcomes less / equal / greater / incomparable."""
+    rule = 'C02.l'
+    n = 0
+    for cname, reject_on in BOUND_FACETS.items():
+        c = ctx.idx.cls(f'xmlschema.validators.facets.{cname}')
+        f = c.methods.get('__call__')
+        if f is None:
+            raise AnalysisError(f'missing anchor {cname}.__call__')
+        ctx.analysed(f.qualname)
+        g = cfg_of(ctx, f)
+        tests = []
+        for x in g.nodes:
+            if x.kind == 'if' and any(m.kind == 'raise' or (m.kind == 'stmt' and any(r.kind == 'raise' for r, _ in g.succ[m])) for m, lab in g.succ[x] if lab == 'T') \
+                    and _eval_order(x.ast.test, 'lt') is not None:
+                tests.append(x)
+        if len(tests) != 1:
+            raise AnalysisError(f'UNRECOGNISED-IDIOM {rule}: the rejecting test of {cname}.__call__')
+        t = tests[0]
+        for outcome, label in (('lt', 'less than the bound'), ('eq', 'equal to the bound'), ('gt', 'greater than the bound'), ('inc', 'not comparable with the bound')):
+            n += 1
+            got = _eval_order(t.ast.test, outcome)
+            want = outcome in reject_on
+            ok = got == want
+            ctx.ob(rule, f'{cname}: a value {label} is {"rejected" if want else "accepted"}', f.loc(t.ast), ok,
+                   '' if ok else (f'`{text(t.ast.test)}` {"rejects" if got else "accepts"} it' +
+                                  (': NaN passes the facet (<a>NaN</a> is valid for a restriction of xs:double with this bound), and so does a duration that is incomparable '
+                                   'with the bound' if outcome == 'inc' else '')), key=f'{cname}|order|{outcome}')
+    ctx.floor(rule, 'bound facet x order outcome', n, 16)
+    ctx.explain('C02.l: the rejecting test of the four bound facets evaluated as a table over the outcomes {less, equal, greater, incomparable} of comparing value and bound '
+                '(in the incomparable row every order comparison is false).')
+
+
+RULES = [rule_a, rule_b, rule_c, rule_d, rule_e, rule_f, rule_g, rule_h, rule_i, rule_j, rule_k, rule_l]
